@@ -3,6 +3,7 @@ C08 — reports are well-formed, ordered and identical in both output formats.
 Statements only; helper lemmas live in Proofs/.
 -/
 import NormModel.Proofs.Reports
+import NormModel.Proofs.LexTotal
 import NormModel.Generated.Catalogue
 namespace Norm.C08
 open Norm
@@ -83,6 +84,24 @@ theorem lexer_codes_in_catalogue :
 
 /-- Catalogue keys are unique, so "the catalogue text of a code" is well defined. -/
 theorem catalogue_keys_nodup : (Generated.catalogue.map Prod.fst).Nodup := by decide +kernel
+
+/-- Every diagnostic the lexer produces carries at least one highlight, for every input
+(needed: the comparator is only a strict weak order on such diagnostics, and both
+formatters read `highlights[0]`). -/
+theorem lexer_diags_have_highlight (u : Uni) (src : List Char) (r : LexResult) (h : lex u src = .ok r) :
+    ∀ d ∈ r.diags, HasHl d := by
+  unfold lex at h
+  split at h
+  · cases h
+  · rename_i items sf hrun
+    simp only [Except.ok.injEq] at h
+    subst h
+    obtain ⟨_, ⟨n, _, _, _, _, ds, h5, h6⟩, _⟩ := lexItems_tiling u src _ _ items sf (good_init src) hrun
+    intro d hd
+    simp only at hd
+    rw [h5] at hd
+    simp only [List.nil_append] at hd
+    exact h6 d hd
 
 /-- Non-vacuity: a concrete list with ties, several highlights and a Notice. -/
 def exampleDiags : List Diag := [
